@@ -30,6 +30,29 @@ M = {
     "allocate_atomic_wrong_gen": ("src/world/entity.rs", "        self.raised.add_atomic(id);\n        #[cfg(feature = \"verif-hooks\")]\n        crate::verif::yield_point(crate::verif::point::ALLOC_AFTER_RAISE);\n        let gen = self\n            .generation(id)\n            .map(|gen| if gen.is_alive() { gen } else { gen.raised() })", "        self.raised.add_atomic(id);\n        #[cfg(feature = \"verif-hooks\")]\n        crate::verif::yield_point(crate::verif::point::ALLOC_AFTER_RAISE);\n        let gen = self\n            .generation(id)\n            .map(|gen| if gen.is_alive() { gen } else { Generation(unsafe { NonZeroI32::new_unchecked(-gen.id()) }) })", "C01,C02"),
 }
 
+M.update({
+    "dense_remove_no_redirect": ("src/storage/storages.rs", "        unsafe { self.data_id.get_unchecked_mut(last as usize) }.write(did);\n", "", "C04"),
+    "flagged_remove_no_event": ("src/storage/flagged.rs", "    unsafe fn remove(&mut self, id: Index) -> C {\n        if self.emit_event() {\n            self.channel\n                .get_mut()\n                .single_write(ComponentEvent::Removed(id));\n        }\n", "    unsafe fn remove(&mut self, id: Index) -> C {\n", "C12"),
+    "deref_flagged_eager_modified": ("src/storage/deref_flagged.rs", "        let emit = self.emit_event();\n        FlaggedAccessMut {", "        let emit = self.emit_event();\n        if emit {\n            self.channel.single_write(ComponentEvent::Modified(id));\n        }\n        FlaggedAccessMut {", "C12"),
+    "flagged_insert_ignores_emission_flag": ("src/storage/flagged.rs", "    unsafe fn insert(&mut self, id: Index, comp: C) {\n        if self.emit_event() {", "    unsafe fn insert(&mut self, id: Index, comp: C) {\n        if true {", "C12"),
+    "flagged_drop_bypasses_event": ("src/storage/flagged.rs", "    unsafe fn remove(&mut self, id: Index) -> C {\n        if self.emit_event() {\n            self.channel\n                .get_mut()\n                .single_write(ComponentEvent::Removed(id));\n        }", "    unsafe fn drop(&mut self, id: Index) {\n        unsafe { self.storage.drop(id) };\n    }\n\n    unsafe fn remove(&mut self, id: Index) -> C {\n        if self.emit_event() {\n            self.channel\n                .get_mut()\n                .single_write(ComponentEvent::Removed(id));\n        }", "C12"),
+    "restrict_read_get_other_no_alive": ("src/storage/restrict.rs", "    pub fn get_other(&self, entity: Entity) -> Option<&C> {\n        if self.bitset.contains(entity.id()) && self.entities.is_alive(entity) {\n            // SAFETY:We just checked the mask.\n            Some(unsafe { self.storage.get(entity.id()) })\n        } else {\n            None\n        }\n    }\n}\n\nimpl<'rf, C> PairedStorageWriteShared", "    pub fn get_other(&self, entity: Entity) -> Option<&C> {\n        if self.bitset.contains(entity.id()) {\n            // SAFETY:We just checked the mask.\n            Some(unsafe { self.storage.get(entity.id()) })\n        } else {\n            None\n        }\n    }\n}\n\nimpl<'rf, C> PairedStorageWriteShared", "C03,C13"),
+    "vec_clean_inverted_mask": ("src/storage/storages.rs", "            if has.contains(i as u32) {\n                // drop in place", "            if !has.contains(i as u32) {\n                // drop in place", "C08"),
+    "storage_remove_no_alive": ("src/storage/mod.rs", "    pub fn remove(&mut self, e: Entity) -> Option<T> {\n        if self.entities.is_alive(e) {", "    pub fn remove(&mut self, e: Entity) -> Option<T> {\n        if true {", "C03"),
+    "insert_overwrite_keeps_old": ("src/storage/mod.rs", "                std::mem::swap(&mut v, unsafe { self.data.inner.get_mut(id) }.access_mut());\n", "                let _ = unsafe { self.data.inner.get_mut(id) };\n", "C04"),
+    "get_other_mut_uses_own_index": ("src/storage/restrict.rs", "            Some(unsafe { self.storage.get_mut(entity.id()) })", "            Some(unsafe { self.storage.get_mut(self.index) })", "C13"),
+    "entry_remove_skips_mask": ("src/storage/entry.rs", "    pub fn remove(self) -> T {\n        self.storage.data.remove(self.id).unwrap()", "    pub fn remove(self) -> T {\n        // SAFETY: occupied\n        unsafe { self.storage.data.inner.remove(self.id) }", "C04"),
+    "default_vec_remove_no_default": ("src/storage/storages.rs", "        core::mem::take(unsafe { self.0.get_unchecked_mut(id as usize) }.get_mut())", "        unsafe { ptr::read(self.0.get_unchecked_mut(id as usize).get_mut()) }", "C08,C04"),
+    "contains_mask_only": ("src/storage/mod.rs", "    pub fn contains(&self, e: Entity) -> bool {\n        self.data.mask.contains(e.id()) && self.entities.is_alive(e)", "    pub fn contains(&self, e: Entity) -> bool {\n        self.data.mask.contains(e.id())", "C03"),
+})
+
+M.update({
+    "entities_join_ignores_raised_gen": ("src/world/entity.rs", "    unsafe fn get(v: &mut &'a EntitiesRes, id: Index) -> Entity {\n        let gen = v\n            .alloc\n            .generation(id)\n            .map(|gen| if gen.is_alive() { gen } else { gen.raised() })", "    unsafe fn get(v: &mut &'a EntitiesRes, id: Index) -> Entity {\n        let gen = v\n            .alloc\n            .generation(id)\n            .map(|gen| if gen.is_alive() { gen } else { Generation::one() })", "C06,C02"),
+    "lend_for_each_skips_first": ("src/join/lend_join.rs", "    pub fn for_each(mut self, mut f: impl FnMut(LendJoinType<'_, J>)) {\n        self.keys.for_each(|idx| {", "    pub fn for_each(mut self, mut f: impl FnMut(LendJoinType<'_, J>)) {\n        self.keys.next();\n        self.keys.for_each(|idx| {", "C06"),
+    "maybe_lend_wrong_bit": ("src/join/maybe.rs", "    unsafe fn get<'next>((mask, value): &'next mut Self::Value, id: Index) -> Self::Type<'next> {\n        if mask.contains(id) {", "    unsafe fn get<'next>((mask, value): &'next mut Self::Value, id: Index) -> Self::Type<'next> {\n        if mask.contains(id) && id % 64 != 63 {", "C06"),
+    "anti_storage_par_only_ok": ("src/storage/mod.rs", "unsafe impl<'a> Join for AntiStorage<'a> {\n    type Mask = BitSetNot<&'a BitSet>;\n    type Type = ();\n    type Value = ();\n\n    unsafe fn open(self) -> (Self::Mask, ()) {\n        (BitSetNot(self.0), ())", "unsafe impl<'a> Join for AntiStorage<'a> {\n    type Mask = BitSetNot<&'a BitSet>;\n    type Type = ();\n    type Value = ();\n\n    unsafe fn open(self) -> (Self::Mask, ()) {\n        (BitSetNot(self.0), ())", "-"),
+})
+
 
 def sh(cmd, **kw):
     return subprocess.run(cmd, shell=True, **kw)
